@@ -479,3 +479,16 @@ Theorem xpub_total m rv x n o : xpub_inv n x -> op_ok (xlog x) o -> is_xappend o
 Proof. intros Hinv Hok Ha. destruct (xpub_step_cases m rv x n Hinv o Hok Ha) as [(len & _ & _ & E) | T].
   - rewrite E. exact I.
   - inversion T; cbn [snd]; auto. unfold status_of. destruct (_ <=? _); [exact I|]. destruct (l_connected _); exact I. Qed.
+
+(* ---- the constructor the repository had before fixes/C04-excl-new.diff ---- *)
+(* on a log handed over at term count 2 (position 8192, active partition 2) it reports position 0 and its first offer
+   goes to partition 0 with the stale term id left there, while the stream's real tail is untouched *)
+Lemma xpub_new_asis_wrong :
+  let l := handed_over 0 4096 512 11 22 2 0 in
+  exists x, xpub_new_asis l = Ok x /\ xpub_position Debug x = Ok 0 /\ x_idx x = 0 /\
+    (exists x1, xpub_new l = Ok x1 /\ xpub_position Debug x1 = Ok 8192 /\ x_idx x1 = 2) /\
+    let x' := fst (xpub_step Debug harness_rv (fst (xpub_step Debug harness_rv x (SetLimit 100000))) (Offer [1; 2; 3])) in
+    tail (xlog x') 2 = tail l 2 /\ tail (xlog x') 0 <> tail l 0 /\ part (xlog x') 0 <> [].
+Proof. cbv zeta. eexists. split; [reflexivity|]. split; [reflexivity|]. split; [reflexivity|]. split.
+  - eexists. split; [reflexivity|]. split; reflexivity.
+  - vm_compute. repeat split; discriminate. Qed.
